@@ -132,58 +132,92 @@ func ruleC08Finish(cx *Ctx) {
 			cx.R.Check(instrDominates(def, loadCall), rule, fname, "defer ≺ loader", cx.P.where(def), "the recovering finish handler is registered before the loader runs")
 		}
 		cl := closureOf(def.Call.Value)
-		// inside the deferred closure: the finish callback (param #4 of fn, captured) is called; for the bulk variant inside a range over the map
-		finishCalls := 0
-		inLoop := false
-		lb := loopBlocks(cl)
+		// inside the deferred closure: the finish callback (param #4 of fn, captured) is called - there, or in a helper the
+		// closure hands the callback (and the bulk map) to; for the bulk variant inside a range over the map
+		type fsite struct {
+			in      ssa.Instruction
+			host    *ssa.Function
+			mapRoot ssa.Value         // what the bulk map is called in host
+			outer   []ssa.Instruction // the helper call in the closure, when host is a helper
+		}
+		var sites []fsite
+		finishP, mapP := ssa.Value(bparam(fn, 4)), ssa.Value(bparam(fn, 2))
 		allInstrs(cl, func(in ssa.Instruction) {
 			cc := callCommon(in)
-			if cc == nil || cc.IsInvoke() || cc.StaticCallee() != nil {
+			if cc == nil || cc.IsInvoke() {
 				return
 			}
-			if root := rootOf(cc.Value); root == ssa.Value(bparam(fn, 4)) {
-				finishCalls++
-				if lb[in.Block()] {
-					inLoop = true
+			if cc.StaticCallee() == nil {
+				if rootOf(cc.Value) == finishP {
+					sites = append(sites, fsite{in, cl, mapP, nil})
+				}
+				return
+			}
+			h := origin(cc.StaticCallee())
+			if h.Pkg == nil || !strings.HasPrefix(h.Pkg.Pkg.Path(), modPath) || len(h.Blocks) == 0 {
+				return
+			}
+			fi, mi := -1, -1
+			for i, a := range cc.Args {
+				if rootOf(a) == finishP {
+					fi = i
+				}
+				if rootOf(a) == mapP {
+					mi = i
 				}
 			}
+			if fi < 0 || fi >= len(h.Params) {
+				return
+			}
+			var mr ssa.Value
+			if mi >= 0 && mi < len(h.Params) {
+				mr = h.Params[mi]
+			}
+			allInstrs(h, func(x ssa.Instruction) {
+				hc := callCommon(x)
+				if hc != nil && !hc.IsInvoke() && hc.StaticCallee() == nil && rootOf(hc.Value) == ssa.Value(h.Params[fi]) {
+					sites = append(sites, fsite{x, h, mr, []ssa.Instruction{in}})
+				}
+			})
 		})
+		finishCalls := len(sites)
+		inLoop := false
+		for _, st := range sites {
+			if loopBlocks(st.host)[st.in.Block()] {
+				inLoop = true
+			}
+		}
 		cx.R.Check(finishCalls >= 1, rule, fname, "finish in defer", cx.P.where(def), "the deferred closure runs the finish callback")
 		if name == "doBulkCall" {
 			// the records finished are the values of a range over the bulk map itself - not records looked up through
 			// keys kept elsewhere (a slice that was also handed to the user's loader can be rewritten by it)
 			overMap := false
-			allInstrs(cl, func(in ssa.Instruction) {
-				cc := callCommon(in)
-				if cc == nil || cc.IsInvoke() || cc.StaticCallee() != nil || rootOf(cc.Value) != ssa.Value(bparam(fn, 4)) || len(cc.Args) != 1 {
-					return
+			for _, st := range sites {
+				cc := callCommon(st.in)
+				if len(cc.Args) != 1 || st.mapRoot == nil {
+					continue
 				}
 				if ex, ok := cc.Args[0].(*ssa.Extract); ok && ex.Index == 2 {
 					if nx, ok := ex.Tuple.(*ssa.Next); ok {
-						if rg, ok := nx.Iter.(*ssa.Range); ok && rootOf(rg.X) == ssa.Value(bparam(fn, 2)) {
+						if rg, ok := nx.Iter.(*ssa.Range); ok && rootOf(rg.X) == st.mapRoot {
 							overMap = true
 						}
 					}
 				}
-			})
+			}
 			cx.R.Check(inLoop && overMap, rule, fname, "finish every record", cx.P.where(def), "the finish callback runs in a range over the bulk map itself (all records, fake ones included; not via keys that the loader could have rewritten)")
 		}
 		// the finish callback is not conditional on recover()/err
 		ok := true
-		allInstrs(cl, func(in ssa.Instruction) {
-			cc := callCommon(in)
-			if cc == nil || cc.IsInvoke() || cc.StaticCallee() != nil {
-				return
-			}
-			if rootOf(cc.Value) != ssa.Value(bparam(fn, 4)) {
-				return
-			}
-			for _, g := range guardsAt(in.Block()) {
-				if _, _, isNil := nilCmp(g.Cond); isNil {
-					ok = false
+		for _, st := range sites {
+			for _, at := range append([]ssa.Instruction{st.in}, st.outer...) {
+				for _, g := range guardsAt(at.Block()) {
+					if _, _, isNil := nilCmp(g.Cond); isNil {
+						ok = false
+					}
 				}
 			}
-		})
+		}
 		cx.R.Check(ok, rule, fname, "finish unconditional", cx.P.where(def), "finishing does not depend on whether the loader failed or panicked")
 	}
 	// path view: every outcome of doCall finishes the record exactly once
